@@ -15,7 +15,13 @@ from ..common import run_configs, finish
 PID = "C03"
 
 _POOL = []
+_POOL_EQ = []
 _NEXT = [0]
+_MODE = dict(eqres=False, refusals=False)
+
+
+class NotComparable(Exception):
+    pass
 
 
 def res():
@@ -25,10 +31,46 @@ def res():
         class Res(wiring.Component):
             def __init__(self):
                 super().__init__({})
+
+        class ResEq(wiring.Component):
+            """A user component with VALUE equality: any two instances are equal and hash alike.  A memory map
+            identifies resources by object identity, so two such peripherals are two resources."""
+            def __init__(self):
+                super().__init__({})
+
+            def __eq__(self, other):
+                return isinstance(other, ResEq)
+
+            def __hash__(self):
+                return 7
         _POOL.extend(Res() for _ in range(64))
-    r = _POOL[_NEXT[0] % len(_POOL)]
+        _POOL_EQ.extend(ResEq() for _ in range(64))
+    pool = _POOL_EQ if _MODE["eqres"] else _POOL
+    r = pool[_NEXT[0] % len(pool)]
     _NEXT[0] += 1
     return r
+
+
+def refused_calls(mm, spec, taken):
+    """Calls the map must refuse (a name that is taken), made between the accepted ones: they must leave no trace in
+    any of the three lookups.  (Whether they ARE refused is C18's subject: if one is accepted the tree is dropped.)"""
+    from amaranth_soc.memory import MemoryMap
+    if not _MODE["refusals"] or not taken:
+        return
+    name = taken[-1]
+    try:
+        mm.add_resource(res(), name=name, size=1)
+        raise NotComparable("a taken name was accepted")
+    except ValueError:
+        pass
+    child = MemoryMap(addr_width=1, data_width=spec["dw"])
+    child.add_resource(res(), name=("ghost",), size=1)
+    try:
+        mm.add_window(child, name=name)
+        raise NotComparable("a taken name was accepted")
+    except ValueError:
+        pass
+    query(mm)
 
 
 class QueryFailed(Exception):
@@ -58,13 +100,16 @@ def build(spec, counter, expected, prefix_fn):
     ``prefix_fn`` which maps a local record of THIS map to the root's view."""
     from amaranth_soc.memory import MemoryMap
     mm = MemoryMap(addr_width=spec["aw"], data_width=spec["dw"], alignment=spec.get("al", 0))
+    taken = []
     for item in spec["items"]:
+        refused_calls(mm, spec, taken)
         if item[0] == "res":
             _, size, addr = item
             r = res()
             name = (f"r{counter[0]}",)
             counter[0] += 1
             s, e = mm.add_resource(r, name=name, size=size, addr=addr)
+            taken.append(name)
             query(mm)
             expected.append(prefix_fn(dict(resource=r, start=s, end=e, width=spec["dw"], path=(name,))))
         else:
@@ -73,6 +118,8 @@ def build(spec, counter, expected, prefix_fn):
             child = build(child_spec, counter, sub_expected, lambda rec: rec)
             sparse = {"same": None, "sparse": True, "dense": False}[kind]
             b, stop, ratio = mm.add_window(child, name=name, addr=addr, sparse=sparse)
+            if name is not None:
+                taken.append((name,) if isinstance(name, str) else tuple(name))
             query(mm)                                                  # queries between the mutations
             for rec in sub_expected:
                 # the sentence of the property: [b + s/r, b + e/r), width x r, window name prefixed
@@ -80,6 +127,7 @@ def build(spec, counter, expected, prefix_fn):
                 path = rec["path"] if name is None else (((name,),) if isinstance(name, str) else (tuple(name),)) + rec["path"]
                 expected.append(prefix_fn(dict(resource=rec["resource"], start=b + rec["start"] // ratio,
                                                end=b + rec["end"] // ratio, width=rec["width"] * ratio, path=path)))
+    refused_calls(mm, spec, taken)
     return mm
 
 
@@ -89,9 +137,12 @@ def norm_path(path):
 
 def check_tree(spec, tier, seed):
     _NEXT[0] = 0
+    _MODE["eqres"], _MODE["refusals"] = bool(spec.get("eqres")), bool(spec.get("refusals"))
     expected = []
     try:
         root = build(spec, [0], expected, lambda rec: rec)
+    except NotComparable as e:
+        return dict(refused=True, msg=str(e))
     except QueryFailed as e:
         return dict(violation=dict(kind="tree", err=dict(msg=f"a query between two additions failed: {e}"),
                                    signature=dict(kind="oracle", what="internal_error")), evaluations=0)
@@ -231,6 +282,9 @@ def configs(tier):
         k = repr(c)
         if k not in seen:
             seen.add(k); keep.append(c)
+    # the same trees with refused calls between the accepted ones, and with resources that have value equality
+    step = 5 if quick else 2
+    keep += [dict(c, refusals=True) for c in keep[::step]] + [dict(c, eqres=True) for c in keep[1::step]]
     return keep
 
 
